@@ -132,7 +132,7 @@ func runC18(c *mon.Ctx) {
 		})
 	}
 	// ---- DivideOnDomain ----
-	npoly := c.Pick(14, 60)
+	npoly := c.Pick(14, 100)
 	coeffEvery := c.Pick(16, 2) // every coeffEvery-th (poly,index) pair is also recomputed through coefficient form
 	polys := c18polys(c.Rand("polys"), npoly)
 	pair := 0
